@@ -20,7 +20,10 @@ Holds(c, r) ==
          (* ... asked twice in a row, and once more after every other function of every loaded package has been asked *)
          [] c = "C14_SameOnEveryCall"  -> ~done \/ (o.again_equal /\ o.later_equal)
          (* "only possible results": a function that returns an expression over a constant of its own reports that value *)
-         [] c = "C14_OnlyPossible"     -> ~done \/ r.case.shape \notin {"localconst", "localconststr"} \/ o.alts = LocalConst(r.case.shape, r.case.idx)
+         (* (a type is always a possible answer; a CONSTANT must be the value the function returns) *)
+         [] c = "C14_OnlyPossible"     -> ~done \/ r.case.shape \notin {"localconst", "localconststr"} \/
+                                             (Len(o.alts) = 1 /\ \A i \in 1..Len(o.alts[1]) :
+                                                 o.alt_is_const[1][i] => o.alts[1][i] = LocalConst(r.case.shape, r.case.idx)[1][1])
          [] c = "C14_LiteralsExact"    -> ~done \/ r.case.shape \notin DOMAIN LiteralOnly \/ o.alts = LiteralOnly[r.case.shape]
 
 Failed(r) == {c \in Conjuncts : ~Holds(c, r)}
